@@ -10,3 +10,4 @@ pub mod pgen;
 pub mod variants;
 pub mod watch;
 pub mod precheck;
+pub mod rustc_leg;
